@@ -230,7 +230,12 @@ TraceStep(e) ==
          snap == RawSnap
          k == pr.step + 1
          paired == pr.key # "" /\ pr.role = "variant" /\ pr.key \in DOMAIN pm /\ k <= Len(pm[pr.key])
-         pairViol == (IF paired /\ MaskSnap(pm[pr.key][k], pr.occ) # MaskSnap(snap, pr.occ) THEN {VG(pr.clause, pr.key)} ELSE {})
+         \* after a panic the partially written state is unspecified: two panicking calls agree
+         norm(sn) == IF sn.pn THEN [pn |-> TRUE] ELSE MaskSnap(sn, pr.occ)
+         \* signature of a pair difference: one side panicked through the nil parent of a nullable embed with non-scalar children
+         pairSig == IF paired /\ pm[pr.key][k].pn # snap.pn /\ (\E i \in DOMAIN M.fields : M.fields[i].pmixed)
+                    THEN "panic-differs/embedmixed" ELSE ""
+         pairViol == (IF paired /\ norm(pm[pr.key][k]) # norm(snap) THEN {[VG(pr.clause, pr.key) EXCEPT !.sig = pairSig]} ELSE {})
                      \* an excluded field has no attribute anywhere in what CopyTo writes
                      \cup (IF paired /\ e = "CopyTo" /\ \E i \in DOMAIN pr.occ : PresentAt(Line.tf, pr.occ[i].ap)
                            THEN {VG("C11.excl.to_absent", pr.key)} ELSE {})
